@@ -232,6 +232,14 @@ def c08(tier, seed, replay=None):
     from checks import rules
     v2, cov2 = rules.c08_rules(tier, seed)
     rules.merge(v1, cov, v2, cov2, "nested_through_rules_at_zero_cotangent")
+    # a primitive whose own rule differentiates a closure (autograd.misc.fixed_point): nested to depth 3, inner derivative closing over the outer variable
+    from checks import algebra
+    mp = algebra.misc_part(v1, "fp")
+    cov["fixed_point_primitive_nested"] = mp
+    cov["states"] += mp["states"]
+    cov["transitions"] += mp["transitions"]
+    cov["traces_validated_against_impl"] += mp["cases"]
+    cov["evaluations"] += mp["cases"]
     rc = v1.finish()
     vlib.write_evidence("C08", tier, seed, "model_checking", cov, ASSUME + rules.ASSUME, time.time() - t0, len(v1.violations))
     return rc
@@ -243,7 +251,9 @@ def c07(tier, seed, replay=None):
     q = tier == "quick"
     # mix: sparse (indexing) and dense cotangents meeting at one value, differentiated 1..3 times in every mode sequence
     # fault: higher-order / nested derivatives computed by a function that first recovers from a failed inner differentiation
-    fams = [("ho", 4, None), ("mix", 3, None), ("nest", 2, None), ("nestq", 3, 800) if q else ("nest", 3, None), ("fault", 2, None)]
+    # threads2small: a nested (second-order) differentiation in one thread while another thread enters and leaves traces
+    fams = [("ho", 4, None), ("mix", 3, None), ("nest", 2, None), ("nestq", 3, 800) if q else ("nest", 3, None), ("fault", 2, None),
+            ("threads2small", 2, 250 if q else 2000)]
     muts = [("ho", 3, MUT_GEQ)]
     t0 = time.time()
     v1, cov = run_agm("C07", tier, seed, fams, muts,
@@ -263,6 +273,11 @@ def c07(tier, seed, replay=None):
     for k, n in v2.known_hits.items():
         v1.known_hits[k] = v1.known_hits.get(k, 0) + n
     cov["known_findings_reobserved"] = v1.known_hits
+    from checks import algebra
+    mp = algebra.misc_part(v1, "fp")
+    cov["fixed_point_primitive_orders_1_to_3"] = mp
+    cov["traces_validated_against_impl"] += mp["cases"]
+    cov["evaluations"] += mp["cases"]
     rc = v1.finish()
     vlib.write_evidence("C07", tier, seed, "model_checking", cov, ASSUME + rules.ASSUME, time.time() - t0, len(v1.violations))
     return rc
